@@ -240,6 +240,7 @@ pub open spec fn in_prefix(vs: Seq<VehicleIdx>, k: int, v: VehicleIdx) -> bool {
     exists|j: int| 0 <= j < k && #[trigger] vs[j] == v
 }
 /// loop 1 after k given vehicles: "every processed vehicle is in exactly one cluster or in sorted_unassigned_vehicles"
+#[verifier::opaque]
 pub open spec fn split_inv(net: &Network, tours: Map<VehicleIdx, Tour>, vs: Seq<VehicleIdx>, k: int, sc: Seq<Cluster>, su: Seq<VehicleIdx>) -> bool {
     &&& given_ok(net, tours, vs)
     &&& 0 <= k <= vs.len()
@@ -334,6 +335,7 @@ pub proof fn lemma_split_init(net: &Network, tours: Map<VehicleIdx, Tour>, vs: S
     requires given_ok(net, tours, vs), sc.len() == 0, su.len() == 0,
     ensures split_inv(net, tours, vs, 0, sc, su),
 {
+    reveal(split_inv);
 }
 /// the k-th given vehicle becomes a new one-vehicle cluster
 pub proof fn lemma_split_cluster(net: &Network, tours: Map<VehicleIdx, Tour>, vs: Seq<VehicleIdx>, k: int, sc: Seq<Cluster>, su: Seq<VehicleIdx>, c: Cluster)
@@ -342,6 +344,7 @@ pub proof fn lemma_split_cluster(net: &Network, tours: Map<VehicleIdx, Tour>, vs
         c.0@ == seq![vs[k]], c.1 == tour_counter(&tours[vs[k]]),
     ensures split_inv(net, tours, vs, k + 1, sc.push(c), su),
 {
+    reveal(split_inv);
     let v = vs[k];
     let n = sc.len() as int;
     let sc2 = sc.push(c);
@@ -402,6 +405,7 @@ pub proof fn lemma_split_unassigned(net: &Network, tours: Map<VehicleIdx, Tour>,
     requires split_inv(net, tours, vs, k, sc, su), k < vs.len(),
     ensures split_inv(net, tours, vs, k + 1, sc, su.push(vs[k])),
 {
+    reveal(split_inv);
     let v = vs[k];
     let su2 = su.push(v);
     lemma_not_in_prefix(vs, k);
@@ -445,6 +449,7 @@ pub proof fn lemma_split_done(net: &Network, tours: Map<VehicleIdx, Tour>, vs: S
     requires split_inv(net, tours, vs, vs.len() as int, sc, su),
     ensures lp2_inv(net, tours, vs, su, 0, sc),
 {
+    reveal(split_inv);
     let n = vs.len() as int;
     assert forall|a: int| 0 <= a < su.len() implies vs.contains(#[trigger] su[a]) by {
         assert(in_prefix(vs, n, su[a]));
